@@ -71,7 +71,7 @@ type felixObs struct {
 	calc          [4]bool
 }
 
-func felixSide(raw *string, m modeT, v4 bool) felixObs {
+func felixSide(raw *string, m modeT, v4 bool, fl flagsT, api bool) felixObs {
 	cfg := config.New()
 	kv := map[string]string{}
 	if raw != nil {
@@ -88,11 +88,39 @@ func felixSide(raw *string, m modeT, v4 bool) felixObs {
 	if err != nil {
 		panic(err)
 	}
-	pool := &model.IPPool{CIDR: *n, IPIPMode: m.ipip, VXLANMode: m.vxlan, IPAM: true}
-	ec := calc.NewEncapsulationCalculator(cfg, &model.KVPairList{KVPairs: []*model.KVPair{{Key: model.IPPoolKey{CIDR: netip.MustParsePrefix(cidr)}, Value: pool}}})
+	var kvp *model.KVPair
+	if api {
+		// start-up path: pools listed through the v3 client (handleAPIPool)
+		p := v3.NewIPPool()
+		p.Name = "verif-pool"
+		p.Spec = v3.IPPoolSpec{CIDR: cidr, IPIPMode: apiIPIP[m.ipip], VXLANMode: apiVXLAN[m.vxlan], Disabled: fl.disabled, NATOutgoing: fl.nat,
+			DisableBGPExport: fl.nobgp, NodeSelector: "all()"}
+		if fl.disabled && fl.nat && fl.nobgp {
+			p.Spec.NodeSelector = "has(verif-label)"
+		}
+		kvp = &model.KVPair{Value: p}
+	} else {
+		// syncer / calc-graph path (handleModelPool)
+		pool := &model.IPPool{CIDR: *n, IPIPMode: m.ipip, VXLANMode: m.vxlan, IPAM: true, Disabled: fl.disabled, Masquerade: fl.nat, DisableBGPExport: fl.nobgp}
+		kvp = &model.KVPair{Key: model.IPPoolKey{CIDR: netip.MustParsePrefix(cidr)}, Value: pool}
+	}
+	ec := calc.NewEncapsulationCalculator(cfg, &model.KVPairList{KVPairs: []*model.KVPair{kvp}})
 	return felixObs{cfg.ProgramClusterRoutes, cfg.ProgramIPIPClusterRoutes(), cfg.ProgramNoEncapClusterRoutes(),
 		[4]bool{ec.IPIPEnabled(), ec.VXLANEnabled(), ec.VXLANEnabledV6(), ec.NoEncapNeeded()}}
 }
+
+// pool attributes that must not matter for ownership
+type flagsT struct{ disabled, nat, nobgp bool }
+
+func (f flagsT) coq() string {
+	return fmt.Sprintf("(%s, %s, %s)", coqBool(f.disabled), coqBool(f.nat), coqBool(f.nobgp))
+}
+func (f flagsT) name() string {
+	return fmt.Sprintf("disabled=%v,natOutgoing=%v,disableBGPExport=%v", f.disabled, f.nat, f.nobgp)
+}
+
+var apiIPIP = map[encap.Mode]v3.IPIPMode{encap.Never: v3.IPIPModeNever, encap.Always: v3.IPIPModeAlways, encap.CrossSubnet: v3.IPIPModeCrossSubnet}
+var apiVXLAN = map[encap.Mode]v3.VXLANMode{encap.Never: v3.VXLANModeNever, encap.Always: v3.VXLANModeAlways, encap.CrossSubnet: v3.VXLANModeCrossSubnet}
 
 type birdObs struct {
 	pol      [2]bool
@@ -103,7 +131,7 @@ type birdObs struct {
 }
 
 // kind: 0 no BGPConfiguration, 1 field unset, 2 value
-func birdSide(kind int, val string, m modeT, v4 bool) birdObs {
+func birdSide(kind int, val string, m modeT, v4 bool, fl flagsT) birdObs {
 	var cfg *v3.BGPConfiguration
 	if kind >= 1 {
 		cfg = v3.NewBGPConfiguration()
@@ -121,7 +149,7 @@ func birdSide(kind int, val string, m modeT, v4 bool) birdObs {
 	if err != nil {
 		panic(err)
 	}
-	pool := model.IPPool{CIDR: *n, IPIPMode: m.ipip, VXLANMode: m.vxlan, IPAM: true}
+	pool := model.IPPool{CIDR: *n, IPIPMode: m.ipip, VXLANMode: m.vxlan, IPAM: true, Disabled: fl.disabled, Masquerade: fl.nat, DisableBGPExport: fl.nobgp}
 	r, err := confd.VerifC28(cfg, pool, ver)
 	if err != nil {
 		panic(err)
@@ -246,41 +274,82 @@ func main() {
 	enc := json.NewEncoder(os.Stdout)
 	count := 0
 	nf, nb := 0, 0
+	type fkeyT struct {
+		fr  rawT
+		fl  flagsT
+		api bool
+	}
+	type bkeyT struct {
+		br brawT
+		fl flagsT
+	}
+	type comboT struct {
+		fr  rawT
+		br  brawT
+		fl  flagsT
+		api bool
+	}
+	// stream 1: every raw value x every BGPConfiguration state, bare pool, syncer path
+	var combos []comboT
+	for _, br := range braws {
+		for _, fr := range fraws {
+			combos = append(combos, comboT{fr, br, flagsT{}, false})
+		}
+	}
+	// stream 2: the default pair and the four supported pairings x pool attributes that must not matter x both paths
+	pairs := []comboT{{fr: rawT{false, ""}, br: brawT{1, ""}}, {fr: rawT{true, "EnabledIPIPOnly"}, br: brawT{2, "EnabledNoEncapOnly"}},
+		{fr: rawT{true, "Enabled"}, br: brawT{2, "Disabled"}}, {fr: rawT{true, "Disabled"}, br: brawT{2, "Enabled"}},
+		{fr: rawT{true, "EnabledNoEncapOnly"}, br: brawT{2, "EnabledIPIPOnly"}}}
+	for _, pr := range pairs {
+		combos = append(combos, comboT{pr.fr, pr.br, flagsT{}, true})
+		for _, fl := range []flagsT{{true, false, false}, {false, true, false}, {false, false, true}, {true, true, true}} {
+			for _, api := range []bool{false, true} {
+				combos = append(combos, comboT{pr.fr, pr.br, fl, api})
+			}
+		}
+	}
 	for _, fam := range []bool{true, false} {
 		for _, m := range modes {
 			if !fam && (m.ipip != encap.Never) {
 				continue // IPIP pools are IPv4 only (rejected by validation otherwise)
 			}
-			fcache := map[rawT]felixObs{}
-			fname := map[rawT]string{}
-			for _, fr := range fraws {
-				var p *string
-				if fr.present {
-					s := fr.s
-					p = &s
+			fcache := map[fkeyT]felixObs{}
+			fname := map[fkeyT]string{}
+			bcache := map[bkeyT]birdObs{}
+			bnames := map[bkeyT]string{}
+			for _, cb := range combos {
+				fr, br := cb.fr, cb.br
+				fk, bk := fkeyT{fr, cb.fl, cb.api}, bkeyT{br, cb.fl}
+				if _, ok := fcache[fk]; !ok {
+					var p *string
+					if fr.present {
+						s := fr.s
+						p = &s
+					}
+					fo := felixSide(p, m, fam, cb.fl, cb.api)
+					fcache[fk] = fo
+					fcoq := "None"
+					if fr.present {
+						fcoq = "(Some " + coqStr(fr.s) + ")"
+					}
+					fname[fk] = fmt.Sprintf("f_%d", nf)
+					nf++
+					enc.Encode(map[string]string{"def": fmt.Sprintf("Definition %s := Build_fobs %s %s %s %s %s %s %s %s (%s, %s, %s, %s).",
+						fname[fk], fcoq, m.coq, coqBool(fam), cb.fl.coq(), coqBool(cb.api), coqStr(fo.pcr), coqBool(fo.ipip), coqBool(fo.noencap),
+						coqBool(fo.calc[0]), coqBool(fo.calc[1]), coqBool(fo.calc[2]), coqBool(fo.calc[3]))})
 				}
-				fo := felixSide(p, m, fam)
-				fcache[fr] = fo
-				fcoq := "None"
-				if fr.present {
-					fcoq = "(Some " + coqStr(fr.s) + ")"
-				}
-				fname[fr] = fmt.Sprintf("f_%d", nf)
-				nf++
-				enc.Encode(map[string]string{"def": fmt.Sprintf("Definition %s := Build_fobs %s %s %s %s %s %s (%s, %s, %s, %s).",
-					fname[fr], fcoq, m.coq, coqBool(fam), coqStr(fo.pcr), coqBool(fo.ipip), coqBool(fo.noencap),
-					coqBool(fo.calc[0]), coqBool(fo.calc[1]), coqBool(fo.calc[2]), coqBool(fo.calc[3]))})
-			}
-			for _, br := range braws {
-				bo := birdSide(br.kind, br.s, m, fam)
 				bcoq := []string{"BNoConfig", "BUnset", "(BVal " + coqStr(br.s) + ")"}[br.kind]
-				bname := fmt.Sprintf("b_%d", nb)
-				nb++
-				enc.Encode(map[string]string{"def": fmt.Sprintf("Definition %s := Build_bobs %s %s %s (%s, %s) %s %s %s.",
-					bname, bcoq, m.coq, coqBool(fam), coqBool(bo.pol[0]), coqBool(bo.pol[1]), coqBool(bo.programs), bo.stmt, coqBool(bo.tunl0))})
-				for _, fr := range fraws {
-					fo := fcache[fr]
-					coq := fmt.Sprintf("(Build_case %s %s)", fname[fr], bname)
+				if _, ok := bcache[bk]; !ok {
+					bo := birdSide(br.kind, br.s, m, fam, cb.fl)
+					bcache[bk] = bo
+					bnames[bk] = fmt.Sprintf("b_%d", nb)
+					nb++
+					enc.Encode(map[string]string{"def": fmt.Sprintf("Definition %s := Build_bobs %s %s %s %s (%s, %s) %s %s %s.",
+						bnames[bk], bcoq, m.coq, coqBool(fam), cb.fl.coq(), coqBool(bo.pol[0]), coqBool(bo.pol[1]), coqBool(bo.programs), bo.stmt, coqBool(bo.tunl0))})
+				}
+				fo, bo, bname := fcache[fk], bcache[bk], bnames[bk]
+				{
+					coq := fmt.Sprintf("(Build_case %s %s)", fname[fk], bname)
 					fc, bc := classOf(fr.present, fr.s), classOf(br.kind == 2, br.s)
 					if br.kind == 0 {
 						bc = "no-bgpconfig"
@@ -288,11 +357,13 @@ func main() {
 					fv, bv := resolve(fr.present, fr.s, "EnabledIPIPOnly"), resolve(br.kind == 2, br.s, "EnabledNoEncapOnly")
 					sup := supported[[2]string{fv, bv}]
 					tags := []string{"felix:" + fc, "bgp:" + bc, "mode:" + m.name, map[bool]string{true: "ipv4", false: "ipv6"}[fam],
-						map[bool]string{true: "pairing:supported", false: "pairing:unsupported"}[sup]}
-					l := line{Coq: coq, NT: sup, Key: fmt.Sprintf("%v|%q|%d|%q|%s|%v", fr.present, fr.s, br.kind, br.s, m.name, fam), Tags: tags,
+						map[bool]string{true: "pairing:supported", false: "pairing:unsupported"}[sup], "pool:" + cb.fl.name(),
+						map[bool]string{true: "felix-path:startup(handleAPIPool)", false: "felix-path:syncer(handleModelPool)"}[cb.api]}
+					l := line{Coq: coq, NT: sup, Key: fmt.Sprintf("%v|%q|%d|%q|%s|%v|%s|%v", fr.present, fr.s, br.kind, br.s, m.name, fam, cb.fl.name(), cb.api), Tags: tags,
 						Sample: map[string]any{"felix_raw": map[bool]any{true: fr.s, false: nil}[fr.present], "bgp": bcoq, "mode": m.name, "ipv4": fam,
-							"felix": map[string]any{"ProgramClusterRoutes": fo.pcr, "ProgramIPIP": fo.ipip, "ProgramNoEncap": fo.noencap, "calc(ipip,vxlan,vxlan6,noencap)": fo.calc},
-							"confd": map[string]any{"policy(ipip,noEncap)": bo.pol, "programsPool": bo.programs, "kernel_filter": bo.raw, "tunl0_in_ibgp_reject": bo.tunl0},
+							"pool_attributes": cb.fl.name(), "felix_path": map[bool]string{true: "start-up (handleAPIPool)", false: "syncer (handleModelPool)"}[cb.api],
+							"felix":       map[string]any{"ProgramClusterRoutes": fo.pcr, "ProgramIPIP": fo.ipip, "ProgramNoEncap": fo.noencap, "calc(ipip,vxlan,vxlan6,noencap)": fo.calc},
+							"confd":       map[string]any{"policy(ipip,noEncap)": bo.pol, "programsPool": bo.programs, "kernel_filter": bo.raw, "tunl0_in_ibgp_reject": bo.tunl0},
 							"felix_class": fc, "bgp_class": bc}}
 					if err := enc.Encode(l); err != nil {
 						panic(err)
